@@ -72,6 +72,10 @@ RUN_DIRS = []
 
 
 def make_run_dir():
+    fixed = os.environ.get("VERIF_FIXED_DIR")
+    if fixed:
+        os.makedirs(fixed, exist_ok=True)
+        return fixed
     base = "/dev/shm" if os.path.isdir("/dev/shm") and os.access("/dev/shm", os.W_OK) else tempfile.gettempdir()
     d = tempfile.mkdtemp(prefix=f"verif-{os.getpid()}-", dir=base)
     RUN_DIRS.append(d)
